@@ -112,3 +112,17 @@ for first, second in ((True, False), (False, True)):
                  ('n-from-that-volume',
                   '(self.get_n(V=n, T=T, P=P, gas_phase=%s), self.get_n(V=n, T=T, P=P, gas_phase=%s))[1] * self.get_Vm(T=T, P=P, gas_phase=%s) == n'
                   % (first, second, second))])
+
+# ---- an equation of state that went through its dictionary / JSON form is the same equation of state -------------------------
+lemma('vdW:reloaded-object-has-the-same-parameters', P, forall=dict(self=vdw(), T=st['T'], V=st['V'], n=st['n']),
+      given=AB + ['T > 0', 'V > 0', 'n > 0', 'V != n * self.b'],
+      prove=[('a-and-b', 'spec.eos.reloaded(self).a == self.a and spec.eos.reloaded(self).b == self.b'),
+             ('same-pressure', 'spec.eos.reloaded(self).get_P(T=T, V=V, n=n) == self.get_P(T=T, V=V, n=n)'),
+             ('same-critical-point', 'spec.eos.reloaded(self).get_Tc() == self.get_Tc() and spec.eos.reloaded(self).get_Pc() == self.get_Pc()')])
+lemma('vdW:from_critical-then-reloaded', P, forall=dict(Tc=Real(100., 700.), Pc=Real(10., 250.)), given=['Tc > 0', 'Pc > 0'],
+      prove=[('critical-point-recovered-after-reload',
+              'spec.eos.reloaded(pm.eos.vanDerWaalsEOS.from_critical(Tc=Tc, Pc=Pc)).get_Tc() == Tc and '
+              'spec.eos.reloaded(pm.eos.vanDerWaalsEOS.from_critical(Tc=Tc, Pc=Pc)).get_Pc() == Pc')])
+
+from contracts import helpers
+helpers.install(P, ('convert_unit', [('bar', ['Pa']), ('Pa', ['bar'])]))
